@@ -2924,7 +2924,7 @@ namespace awkward {
                     current_error_ = util::ForthError::stack_overflow;         \
                     return;                                                    \
                   }                                                            \
-                  stack_push((I)value);                                        \
+                  stack_push((T)value);                                        \
                 }                                                              \
                 break;                                                         \
               }
@@ -2950,7 +2950,7 @@ namespace awkward {
                     current_error_ = util::ForthError::stack_overflow;         \
                     return;                                                    \
                   }                                                            \
-                  stack_push((I)value);                                        \
+                  stack_push((T)value);                                        \
                 }                                                              \
                 break;                                                         \
               }
@@ -3217,7 +3217,7 @@ namespace awkward {
                 current_error_ = util::ForthError::stack_overflow;
                 return;
               }
-              stack_push((I)current_inputs_[(IndexTypeOf<int64_t>)in_num].get()->len());
+              stack_push((T)current_inputs_[(IndexTypeOf<int64_t>)in_num].get()->len());
               break;
             }
 
@@ -3228,7 +3228,7 @@ namespace awkward {
                 current_error_ = util::ForthError::stack_overflow;
                 return;
               }
-              stack_push((I)current_inputs_[(IndexTypeOf<int64_t>)in_num].get()->pos());
+              stack_push((T)current_inputs_[(IndexTypeOf<int64_t>)in_num].get()->pos());
               break;
             }
 
@@ -3324,7 +3324,7 @@ namespace awkward {
                 current_error_ = util::ForthError::stack_overflow;
                 return;
               }
-              stack_push((I)current_outputs_[(IndexTypeOf<int64_t>)out_num].get()->len());
+              stack_push((T)current_outputs_[(IndexTypeOf<int64_t>)out_num].get()->len());
               break;
             }
 
@@ -3388,7 +3388,7 @@ namespace awkward {
                 current_error_ = util::ForthError::stack_overflow;
                 return;
               }
-              stack_push((I)do_i());
+              stack_push((T)do_i());
               break;
             }
 
@@ -3397,7 +3397,7 @@ namespace awkward {
                 current_error_ = util::ForthError::stack_overflow;
                 return;
               }
-              stack_push((I)do_j());
+              stack_push((T)do_j());
               break;
             }
 
@@ -3406,7 +3406,7 @@ namespace awkward {
                 current_error_ = util::ForthError::stack_overflow;
                 return;
               }
-              stack_push((I)do_k());
+              stack_push((T)do_k());
               break;
             }
 
